@@ -11,7 +11,15 @@ Init == m = MInit(IV, <<"x", "y">>) /\ h = [k \in Slots |-> 0] /\ last = <<"init
 Sym == {<<0, 1>>, <<0, -1>>} \cup {<<k, sg>> : k \in {j \in Slots : h[j] # 0}, sg \in {1, -1}}
 Val(a) == IF a[1] = 0 THEN a[2] ELSE a[2] * h[a[1]]
 Ext == [n \in {AbsM(h[k]) : k \in {j \in Slots : h[j] # 0}} |-> Cardinality({k \in Slots : h[k] # 0 /\ AbsM(h[k]) = n})]
-Put(k, res) == /\ h[k] = 0 /\ m' = [res.s EXCEPT !.ref[AbsM(res.r)] = @ + 1] /\ h' = [h EXCEPT ![k] = res.r]
+(* first free slot (slots are interchangeable); a full table is overwritten
+   (`u = mdd.ite(u, v, w)`: incref the result, decref what the slot held), so
+   that two held operands meet in one call *)
+FirstFree(k) == h[k] = 0 /\ \A j \in Slots : h[j] = 0 => k <= j
+DecM(rf, r) == [rf EXCEPT ![AbsM(r)] = IF @ > 0 THEN @ - 1 ELSE 0]
+Put(k, res) == /\ (IF \E j \in Slots : h[j] = 0 THEN FirstFree(k) ELSE TRUE)
+               /\ m' = [res.s EXCEPT !.ref = IF h[k] = 0 THEN [@ EXCEPT ![AbsM(res.r)] = @ + 1]
+                                             ELSE DecM([@ EXCEPT ![AbsM(res.r)] = @ + 1], h[k])]
+               /\ h' = [h EXCEPT ![k] = res.r]
 DoVal(k, lvl, j) ==     \* the indicator "variable at lvl has value j"
   /\ Put(k, MFindOrAdd(m, lvl, [i \in 1..IV[lvl + 1].len |-> IF i = j + 1 THEN 1 ELSE -1]))
   /\ last' = <<"val", k, lvl, j>>
@@ -23,7 +31,10 @@ Next == \/ \E k \in Slots, lvl \in 0..1 : \E j \in 0..(IV[lvl + 1].len - 1) : Do
         \/ \E k \in Slots : \E g, u, v \in Sym : DoIte(k, g, u, v)
         \/ \E k \in Slots : DoDrop(k)
         \/ DoGC
-Bound == Cardinality(DOMAIN m.succ) <= MaxNodes /\ TLCGet("level") <= MaxDepth
+NextB == TLCGet("level") < MaxDepth /\ Next
+Bound == Cardinality(DOMAIN m.succ) <= MaxNodes
+(* NON-VACUITY PROBE (expected to be VIOLATED): no diagram over both integer variables *)
+ProbeFlat == \A n \in MNodes(m) \ {1} : \A j \in DOMAIN m.succ[n][2] : AbsM(m.succ[n][2][j]) = 1
 InvCanonical == MCanonical(m)
 InvInjective == MDenInjective(m)
 InvRef == MRefExact(m, Ext)
